@@ -454,6 +454,10 @@ class Simulator(EventProducer, SimulatorInterface, Generic[TIME]):
         # the replication may have ended by itself while stop() was in progress
         if self._replication_state == ReplicationState.ENDED:
             self._run_state = RunState.ENDED
+        # the run may already have been stopped by another stop()
+        elif (self._run_state == RunState.STOPPING
+                and self.__worker.is_waiting()):
+            self._run_state = RunState.STOPPED
 
     def stop(self):
         """Stops the simulator, and fire a STOP_EVENT that the simulator 
